@@ -132,6 +132,12 @@ def make_worlds(tier):
         w["sched"]["preemptive"] = True
         w["class"] = "preemptive"
         ws.append(w)
+    # Clockwork inside simulate(): the policy loads / evicts models itself (LOAD_PROFILE / EVICT_PROFILE events), batches
+    n_cw = 16 if tier == "quick" else 800
+    for i in range(n_cw):
+        w = worlds.gen_clockwork_world(rnd)
+        w["class"] = "clockwork"
+        ws.append(w)
     # the optimisation-based planners inside simulate() (future placements, explicit workers, plan-ahead)
     n_plan = 12 if tier == "quick" else 600
     for i in range(n_plan):
@@ -276,7 +282,7 @@ def check(pid: str, tier: str, res: CheckResult | None = None) -> CheckResult:
                     )
     res.extra["sim_corpus"] = {
         "worlds": len(c["worlds"]),
-        "by_class": {k: sum(1 for w in c["worlds"] if w["class"] == k) for k in ("directed", "finding", "random", "feasible", "preemptive", "planner")},
+        "by_class": {k: sum(1 for w in c["worlds"] if w["class"] == k) for k in ("directed", "finding", "random", "feasible", "preemptive", "clockwork", "planner")},
         "by_policy": {k: sum(1 for w in c["worlds"] if w["kind"] == k) for k in sorted({w["kind"] for w in c["worlds"] if w["kind"]})},
         "records_validated": c["stats"]["records"],
         "event_and_row_counts": c["counts"],
